@@ -2,6 +2,7 @@
    Theorems about the machine PS.Bee (lean/PS/Model/Enum/BeeSearch.lean); the cost of a program is `pcost`, the
    sum of the integer costs int(-log p * 10^threshold) of the rules of its derivation (the cost table is data). -/
 import PS.Proofs.Enum.BeeOrderRun
+import PS.Proofs.Enum.BeeFullRun
 import PS.Props.C02_Bee
 namespace PS.C03Bee
 open PS PS.G PS.Bee PS.Heapq PS.C02Bee
@@ -62,11 +63,36 @@ example : nonnegW cE = true ∧ dictOK cE = true := by decide
 example : ((Gen.new cE).bind fun g => runActs cE 1000 [.take 10] g []).map (fun r => r.2.map fun p => pcost cE p cG.start) =
     some [1, 4, 5, 5, 6] := by decide +kernel
 
-/-! ### prefix completeness — NOT proved; false when a rule with arguments costs 0 (finding C03-F8 = C02-F6)
+/-! ### PREFIX COMPLETENESS (repaired loop, no merge declaration; finite AND recursive grammars)
 
-Full statement (not proved): `posArgCosts E → … → out = l1 ++ q :: l2 → gen E.G p start → pcost p < pcost q → p ∈ l1`.
-It is compared on every generated case (finite grammars and prefixes on recursive grammars) against the
-brute-force expansion of the rule table by the harness. -/
+False when a rule with arguments costs 0: finding C03-F8 = C02-F6 below; the hypothesis `posArgCosts` is the complement of
+that classifier. -/
+
+/-- **PREFIX COMPLETENESS**: under the decidable hypotheses `nonnegW`, `posArgCosts`, `hasCosts`, `dictOK`, `initFrontOK`,
+    `initCoverOK`, for every grammar (finite or recursive), cost table, rule order, filter, fuel and every history of `next`
+    calls: in a prefix `l1 ++ q :: l2` of the output, every member of the grammar of strictly smaller cost than `q` all of
+    whose sub-programs are accepted by the filter is in `l1` — once a program of cost c has been produced every program of
+    strictly smaller cost has been produced -/
+theorem C03_Bee_prefix_complete_partial (E : Env S) (h1 : nonnegW E = true) (h2 : posArgCosts E = true)
+    (h3 : hasCosts E = true) (h4 : dictOK E = true) (h5 : initFrontOK E = true) (h6 : initCoverOK E = true)
+    (hfix : E.fixF11 = true) (fuel : Nat) (acts : List Act) (hacts : acts.all Act.isTake = true) (g0 g : Gen S)
+    (out : List Prog) (h0 : Gen.new E = some g0) (h : runActs E fuel acts g0 [] = some (g, out))
+    (l1 : List Prog) (q : Prog) (l2 : List Prog) (hout : out = l1 ++ q :: l2) (p : Prog)
+    (hp : gen E.G p E.G.start = true) (hs : Strict E p) (hlt : pcost E p E.G.start < pcost E q E.G.start) : p ∈ l1 := by
+  have H := hyp_of_checks E h1 h2 h3 h4 h5 h6
+  obtain ⟨ha0, hnob⟩ := all_new E H g0 h0
+  obtain ⟨_, hr⟩ := runActs_all E H hfix fuel acts g0 g [] out hacts h ha0
+    ⟨⟨by simp, by simp⟩, fun ci p hin => absurd hin (hnob _ ci p), fun l1 q l2 he => by simp at he⟩
+  exact hr.pc l1 q l2 hout p hp hs hlt
+
+/-- the state form: when a program of cost c is yielded, every accepted member of strictly smaller cost is already in the
+    bank of the start symbol -/
+theorem C03_Bee_yield_bank_complete (E : Env S) (h1 : nonnegW E = true) (h2 : posArgCosts E = true)
+    (h3 : hasCosts E = true) (h4 : dictOK E = true) (h5 : initFrontOK E = true) (h6 : initCoverOK E = true)
+    (hfix : E.fixF11 = true) (g g' : Gen S) (q : Prog) (h : step E g = some (g', some q)) (ha : All E g) :
+    ∀ p, gen E.G p E.G.start = true → Strict E p → pcost E p E.G.start < pcost E q E.G.start →
+      ∃ ci, inBank g.st E.G.start ci p :=
+  (step_all E (hyp_of_checks E h1 h2 h3 h4 h5 h6) hfix g g' (some q) h ha).2 q rfl
 
 /-- `b -> a0 | g a`, `a -> h c`, `c -> k` with costs a0: 5, g: 0, h: 0, k: 1 -/
 def pG : TT Nat Unit := ⟨(fT "b", (0, ())), [((fT "b", (0, ())), [(Sym.prim "a0" .unknown, ([], ())), (Sym.prim "g" .unknown, ([(fT "a", 1)], ()))]),
